@@ -77,6 +77,8 @@ def failing_generated_labels(pid):
     """names of the generated obligations (tie T) that no longer check; evaluated in Coq from the definitions the theorems use"""
     q = {'C11': 'Refine.failing_labels', 'C12': 'Refine.failing_labels'}.get(pid)
     if not q:
+        if pid in T2_PROPS:
+            return t2_failing(pid)
         return []
     cq = os.path.join(VERIF, 'coq')
     tmp = os.path.join(workdir(), 'labels_query.v')
@@ -84,12 +86,41 @@ def failing_generated_labels(pid):
     r = sh('timeout 600 coqc -Q theories CMP -Q gen CMPGen %s' % tmp, cwd=cq, timeout=700)
     return re.findall(r'"((?:[^"]|"")*)"%string', r.stdout)
 
+# tie T2 (translator/code2coq.py -> gen/GenCode.v -> CodeRefine.v): which property files use which translated guard functions
+T2_PROPS = {'C02': ['code_valid_packet', 'code_validator_refines', 'code_is_segmented', 'code_is_first'],
+            'C03': ['code_valid_packet', 'code_validator_refines', 'code_can', 'code_lin', 'code_eth', 'code_analog', 'code_cm', 'code_if'],
+            'C05': ['code_is_segmented', 'code_is_first'], 'C08': ['code_seg_flag']}
+
+def t2_failing(pid):
+    """tie T2: guard functions the translator could not translate on this run, and the theorem of CodeRefine.v that no longer compiles"""
+    out = []
+    try:
+        idx = json.load(open(os.path.join(workdir(), 'code_index.json')))
+        for q, why in idx.get('lost', []):
+            out.append('tie T2: %s is no longer translatable (%s), its refinement theorem cannot be re-checked' % (q, why))
+    except Exception:
+        pass
+    cq = os.path.join(VERIF, 'coq')
+    r = sh('timeout 1200 make -k theories/CodeRefine.vo', cwd=cq, timeout=1300)
+    o = r.stdout + r.stderr
+    m = re.search(r'File "\./theories/CodeRefine\.v", line (\d+)', o)
+    if m:
+        ln = int(m.group(1))
+        src = open(os.path.join(cq, 'theories', 'CodeRefine.v')).read().split('\n')
+        name = None
+        for i in range(min(ln, len(src)) - 1, -1, -1):
+            mm = re.match(r'\s*(?:Theorem|Lemma)\s+(\w+)', src[i])
+            if mm:
+                name = mm.group(1); break
+        out.append('tie T2: CodeRefine.%s (the translated C++ body evaluates in bounds to the model\'s result) no longer checks: %s' % (name, ' '.join(o[o.find('Error'):][:300].split())))
+    return out
+
 def gen_sync():
     """copy the translator's outputs for the current tree into coq/gen (only when content changed, so make stays incremental)"""
     d = ensure_translation()
     g = os.path.join(VERIF, 'coq', 'gen')
     os.makedirs(g, exist_ok=True)
-    for f in ('GenLayout.v', 'GenAccessors.v', 'GenInventory.v'):
+    for f in ('GenLayout.v', 'GenAccessors.v', 'GenInventory.v', 'GenCode.v'):
         s = os.path.join(d, f)
         if os.path.exists(s):
             new = open(s).read()
